@@ -218,7 +218,10 @@ TraceNext == Observable \/ Internal
 
 TraceSpec == TraceInit /\ [][TraceNext]_tvars
 
-HighWater == TLCSet(1, IF l > TLCGet(1) THEN l ELSE TLCGet(1))
+HighWater ==
+    /\ IF l > TLCGet(1) THEN PrintT(<<"hw", l>>) /\ TLCSet(1, l) ELSE TRUE
+    \* the whole trace is explained: stop the search
+    /\ IF l = Len(TraceLog) + 1 THEN TLCSet("exit", TRUE) ELSE TRUE
 
 TraceAccepted ==
     IF TLCGet(1) = Len(TraceLog) + 1 THEN TRUE
